@@ -17,7 +17,8 @@
                the repair a4675d4 no theorem needs it as a hypothesis any more.  *)
 From Coq Require Import List NArith Bool.
 From Mdns Require Import Bytes ParamsHostres HostresBase HostresModel HostresSpec
-                         HostresRefine HostresSchedProofs HostresCacheProofs HostresFoundProofs HostresCaseProofs.
+                         HostresRefine HostresSchedProofs HostresCacheProofs HostresFoundProofs HostresCaseProofs
+                         HostresRefreshProofs.
 Import ListNotations.
 Open Scope N_scope.
 
@@ -188,6 +189,60 @@ Theorem C17_refresh_pass_complete : forall now b,
   Forall (fun r => refresh_wanted now r = false) (fst (refresh_bucket now b)).
 Proof. exact refresh_bucket_done. Qed.
 
+(* ---- "asks for A and AAAA at once", "refreshes while the search is open", "withdrawn" ---- *)
+(* a resolve_hostname call: SearchStarted first, and the A + AAAA question for the name as the
+   caller spelled it goes out in the same iteration *)
+Theorem C17_first_query : forall now p host timeout ch,
+  exists evs, snd (fst (sp_call now p (CResolve host timeout ch))) = (ch, EStarted host) :: evs
+  /\ snd (sp_call now p (CResolve host timeout ch)) = [[(host, 1); (host, 28)]].
+Proof. exact first_query. Qed.
+
+(* a goodbye (TTL 0) is kept for exactly one second, as a new record or as the new lifetime of the
+   record it matches, and never refreshed; eviction then reports it (C17_addresses_removed_on_expiry) *)
+Theorem C17_goodbye_one_second : forall now ifx r,
+  i_ttl r = 0 ->
+  l_expires (a_life (arec_of now ifx r)) = now + 1000
+  /\ life_reset now (l_ttl (a_life (arec_of now ifx r))) = mkLife 1 now (now + 1000) (now + 1000).
+Proof. exact goodbye_one_second. Qed.
+
+(* the refresh pass over all open searches: complete (every due record of an open search's name
+   gets its question: lower-cased name, A / AAAA by address family) and sound *)
+Theorem C17_refresh_all_complete : forall now res c qs r x,
+  In r res -> In x (bucket_of c (r_key r)) -> refresh_wanted now x = true ->
+  In [(r_key r, addr_qtype (a_addr x))] (snd (fold_left (refresh_one now) res (c, qs))).
+Proof. exact refresh_all_complete. Qed.
+
+Theorem C17_refresh_all_sound : forall now res c qs q,
+  In q (snd (fold_left (refresh_one now) res (c, qs))) ->
+  In q qs \/ exists r x, In r res /\ (exists y, In y (bucket_of c (r_key r)) /\ ident y = ident x)
+                         /\ refresh_wanted now x = true /\ q = [(r_key r, addr_qtype (a_addr x))].
+Proof. exact refresh_all_sound. Qed.
+
+(* over all histories (times non-decreasing), for every iteration i (h1 = the iterations before):
+   for every search open at the end of the iteration and every record of its name that is cached
+   after this iteration's responses and due (80 % of its lifetime reached, not expired, not yet
+   refreshed), the question is among the queries sent in this iteration - i.e. before the record
+   expires; and at the end no record of an open search's name is due any more *)
+Theorem C17_refresh_while_open : forall h1 i h2,
+  times_ok 0 (h1 ++ i :: h2) = true ->
+  let p := sp_state_after sst0 h1 in
+  let now := it_now i in
+  let c1 := fst (respond_all now (res_view p) (ss_cache p) (it_msgs i)) in
+  let p' := fst (sp_step p i) in
+  (forall k x, In k (ss_searches p') -> In x (bucket_of c1 (sk_key k)) -> refresh_wanted now x = true ->
+               In [(sk_key k, addr_qtype (a_addr x))] (o_queries (snd (sp_step p i))))
+  /\ (forall k x, In k (ss_searches p') -> In x (bucket_of (ss_cache p') (sk_key k)) -> refresh_wanted now x = false).
+Proof. exact refresh_over_histories. Qed.
+
+Example C17_refresh_example :
+  let p := sp_state_after sst0 (firstn 5 ex_hist) in
+  let i := nth 5 ex_hist (mkIter 0 [] []) in
+  existsb (fun k => existsb (refresh_wanted (it_now i))
+                            (bucket_of (fst (respond_all (it_now i) (res_view p) (ss_cache p) (it_msgs i))) (sk_key k)))
+          (ss_searches (fst (sp_step p i))) = true
+  /\ o_queries (snd (sp_step p i)) = [[(name_a_local, 1)]].
+Proof. exact ex_refresh_ok. Qed.
+
 (* ---- case_insensitive ---- *)
 (* Re-spell the caller's host names by any fc and the responders' owner names by any g, both
    changing ASCII letter case only, g keeping different spellings different.  The trace of the
@@ -245,6 +300,12 @@ Print Assumptions C17_refresh_at_80.
 Print Assumptions C17_refresh_at_80_renewed.
 Print Assumptions C17_refresh_once.
 Print Assumptions C17_refresh_pass_complete.
+Print Assumptions C17_first_query.
+Print Assumptions C17_goodbye_one_second.
+Print Assumptions C17_refresh_all_complete.
+Print Assumptions C17_refresh_all_sound.
+Print Assumptions C17_refresh_while_open.
+Print Assumptions C17_refresh_example.
 Print Assumptions C17_case_insensitive.
 Print Assumptions C17_example.
 Print Assumptions C17_case_example.
